@@ -2,6 +2,20 @@
 C01 — the HashMap model refines the association-list specification (`Hb/Model/Spec.lean`) for every
 lawful environment: every hash function `H` (colliding ones included), every table size, both
 scanners (`CfgOk` only).
+
+* abstraction `abs t = t.elems` (stored elements in bucket order), invariant
+  `RI cfg H t = InvL cfg H t ∧ t.LayoutOk cfg`; results are stated up to `List.Perm`
+  (`AL.perm_find`, `AL.Step.perm` transport them along permutations of key-distinct lists);
+* per call: `get_refines`, `getMut_refines`, `removeEntry_refines`, `remove_refines`,
+  `insert_refines`, `clear_refines`, `reserve_refines`, `tryReserve_refines`, `shrinkTo_refines`,
+  `retain_refines` (with `rf_erase_behind_iterator`);
+* `step_refines` (one `MapOp`), `run_refines` / `C01_run_refines` (histories from `new()`).
+
+Outcomes other than the specified return: only the `"capacity"` panic (capacity overflow) of
+`insert` / `reserve`, which leaves the table untouched; never `fault`, never `abort` (allocator
+never refuses, destructors and the predicate do not panic — `LawfulP`).
+Growth (`GrowthLawful`) is taken as a hypothesis in the `_refines` theorems and discharged from
+`Hb/Proofs/GrowLawful.lean` in `step_refines'` / `C01_run_refines`.
 -/
 import Hb.Model.Spec
 import Hb.Proofs.FindSpec
@@ -493,17 +507,16 @@ theorem rf_resizeLoop_no_panic {env : Env} {H : Nat → Nat} (hl : Lawful env H)
       | cases h
       | exact ih _ _ _ _ h
 
-theorem rf_resizeInner_panic (hc : CfgOk cfg) {env : Env} {H : Nat → Nat} (hl : Lawful env H)
+/-- Under a lawful hasher `resize_inner` can only panic in the allocation of the new table. -/
+theorem rf_resizeInner_panic_src {env : Env} {H : Nat → Nat} (hl : Lawful env H)
     {capacity : Nat} {fb : Fallibility} {w : World} {c : String} {w' : World}
     (h : resizeInner cfg env capacity fb w = .panic c w') :
-    c = "capacity" ∧ w' = w ∧ fb = .infallible := by
-  have hfw := fallibleWithCapacity_spec hc env capacity fb w
+    fallibleWithCapacity cfg env capacity fb w = .panic c w' := by
   unfold resizeInner at h
   split at h
   · rename_i c0 w0 hr
     cases h
-    rw [hr] at hfw
-    exact ⟨hfw.1, hfw.2.1, hfw.2.2.1⟩
+    exact hr
   · cases h
   · cases h
   · cases h
@@ -528,6 +541,54 @@ theorem rf_resizeInner_panic (hc : CfgOk cfg) {env : Env} {H : Nat → Nat} (hl 
             all_goals first
               | (cases h; done)
               | (rename_i hfb; cases h; exact absurd hfb (hfree _ _))
+
+theorem rf_resizeInner_panic (hc : CfgOk cfg) {env : Env} {H : Nat → Nat} (hl : Lawful env H)
+    {capacity : Nat} {fb : Fallibility} {w : World} {c : String} {w' : World}
+    (h : resizeInner cfg env capacity fb w = .panic c w') :
+    c = "capacity" ∧ w' = w ∧ fb = .infallible := by
+  have hfw := fallibleWithCapacity_spec hc env capacity fb w
+  rw [rf_resizeInner_panic_src hl h] at hfw
+  exact ⟨hfw.1, hfw.2.1, hfw.2.2.1⟩
+
+theorem rf_alignDown_mono {x y : Nat} (a : Nat) (h : x ≤ y) : alignDown x a ≤ alignDown y a := by
+  unfold alignDown
+  have h1 := Nat.div_add_mod x a
+  have h2 := Nat.div_add_mod y a
+  have h3 : a * (x / a) ≤ a * (y / a) := Nat.mul_le_mul_left a (Nat.div_le_div_right h)
+  omega
+
+/-- A smaller block has a computable layout if a larger one has. -/
+theorem rf_layout_mono {bits W size ca b b' : Nat} (hle : b' ≤ b)
+    (h : (calculateLayoutFor bits W size ca b).isSome = true) :
+    (calculateLayoutFor bits W size ca b').isSome = true := by
+  cases hb' : calculateLayoutFor bits W size ca b' with
+  | some l => rfl
+  | none =>
+    exfalso
+    obtain ⟨l, hl⟩ := Option.isSome_iff_exists.mp h
+    obtain ⟨h1, h2, h3, _, h5, h6, h7⟩ := calculateLayoutFor_eq_some _ _ _ _ _ _ hl
+    have hmul : size * b' ≤ size * b := Nat.mul_le_mul_left size hle
+    have hal := rf_alignDown_mono ca (show size * b' + (ca - 1) ≤ size * b + (ca - 1) by omega)
+    rw [h3] at h5
+    rcases (calculateLayoutFor_none_iff _ _ _ _ _).mp hb' with k | k | k | k <;> omega
+
+/-- With a never-refusing allocator, `fallible_with_capacity` cannot panic when the layout of the
+    requested block is computable. -/
+theorem rf_fwc_no_panic {env : Env} (halloc : ∀ j, env.allocOk j = true) {cap mb : Nat}
+    (hcb : capacityToBuckets cfg.bits cfg.W cfg.size cap = some mb)
+    (hlay : (calculateLayoutFor cfg.bits cfg.W cfg.size (ctrlAlignOf cfg) mb).isSome = true)
+    (fb : Fallibility) (w : World) (c : String) (w' : World) :
+    fallibleWithCapacity cfg env cap fb w ≠ .panic c w' := by
+  intro h
+  unfold fallibleWithCapacity at h
+  split at h
+  · cases h
+  · rw [hcb] at h
+    simp only [newTable] at h
+    obtain ⟨l, hl⟩ := Option.isSome_iff_exists.mp hlay
+    rw [hl] at h
+    simp only [doAlloc, halloc, if_true] at h
+    cases h
 
 theorem rf_rehashInner_no_panic {env : Env} {H : Nat → Nat} (hl : Lawful env H) (i : Nat) :
     ∀ (fuel : Nat) (w : World) (c : String) (w' : World),
@@ -1078,15 +1139,14 @@ theorem rf_dropInnerTable_empty {env : Env} {old : Raw} (hinv : Inv cfg old) (hl
     rw [freeBuckets_ok hlo ha]
     exact ⟨_, rfl, rfl, by simp [dropsOf]⟩
 
-/-- **`shrink_to`** (and `shrink_to_fit` = `shrink_to(0)`): same elements afterwards. The only other
-    outcome is the capacity-overflow panic of the allocation of the smaller block (world untouched).
-    -/
+/-- **`shrink_to`** (and `shrink_to_fit` = `shrink_to(0)`): same elements afterwards; it cannot even
+    hit capacity overflow, because the smaller block's layout is computable whenever the current
+    one is (`rf_layout_mono`). -/
 theorem shrinkTo_refines (hc : CfgOk cfg) (hgrow : GrowthLawful cfg) {env : Env} {H : Nat → Nat}
     (hl : Lawful env H) (halloc : ∀ j, env.allocOk j = true) (m : Nat) (w : World)
     (h : RI cfg H w.t) :
-    (∃ w', Hb.shrinkTo cfg env m w = .ok w' ∧ RI cfg H w'.t ∧ List.Perm w'.t.elems w.t.elems ∧
-      dropsOf w'.log = dropsOf w.log) ∨
-    Hb.shrinkTo cfg env m w = .panic "capacity" w := by
+    ∃ w', Hb.shrinkTo cfg env m w = .ok w' ∧ RI cfg H w'.t ∧ List.Perm w'.t.elems w.t.elems ∧
+      dropsOf w'.log = dropsOf w.log := by
   unfold Hb.shrinkTo
   simp only
   by_cases h0 : max w.t.items m = 0
@@ -1094,16 +1154,27 @@ theorem shrinkTo_refines (hc : CfgOk cfg) (hgrow : GrowthLawful cfg) {env : Env}
     have hi0 : w.t.items = 0 := by omega
     obtain ⟨w', hr, ht, hd⟩ := rf_dropInnerTable_empty (env := env) h.1.toInv h.2 hi0
       { w with t := Raw.new cfg.W }
-    refine .inl ⟨w', hr, by rw [ht]; exact RI_new hc H, ?_, hd⟩
+    refine ⟨w', hr, by rw [ht]; exact RI_new hc H, ?_, hd⟩
     rw [ht, elems_nil_of_items hc h.1.toInv hi0]
     exact List.Perm.refl _
   · rw [if_neg h0]
     cases hcb : capacityToBuckets cfg.bits cfg.W cfg.size (max w.t.items m) with
-    | none => exact .inl ⟨w, rfl, h, List.Perm.refl _, rfl⟩
+    | none => exact ⟨w, rfl, h, List.Perm.refl _, rfl⟩
     | some mb =>
       simp only
       by_cases hlt : mb < w.t.buckets
       · rw [if_pos hlt]
+        have hlaymb : (calculateLayoutFor cfg.bits cfg.W cfg.size (ctrlAlignOf cfg) mb).isSome = true := by
+          obtain ⟨k, hk, hbk, _⟩ := capacityToBuckets_spec cfg.bits cfg.W cfg.size _ mb hc.bits h0 hcb
+          have ha : w.t.alloc = true := by
+            rcases h.1.toInv.geom with hs | hal
+            · exfalso
+              have hm := hs.2.1
+              have : 2 ^ 2 ≤ 2 ^ k := Nat.pow_le_pow_right (by decide) hk
+              simp only [Raw.buckets, hm] at hlt
+              omega
+            · exact hal.1
+          exact rf_layout_mono (Nat.le_of_lt hlt) (h.2 ha)
         by_cases hi0 : w.t.items = 0
         · rw [if_pos hi0]
           have hsp := fallibleWithCapacity_spec hc env (max w.t.items m) .infallible w
@@ -1121,7 +1192,7 @@ theorem shrinkTo_refines (hc : CfgOk cfg) (hgrow : GrowthLawful cfg) {env : Env}
               obtain ⟨w', hd, ht, hdl⟩ := rf_dropInnerTable_empty (env := env) (old := w1.t)
                 (by rw [ht1]; exact h.1.toInv) (by rw [ht1]; exact h.2) (by rw [ht1]; exact hi0)
                 { w1 with t := new }
-              refine .inl ⟨w', hd, by rw [ht]; exact ⟨invL_of_empty H hI hel, hlo⟩, ?_, ?_⟩
+              refine ⟨w', hd, by rw [ht]; exact ⟨invL_of_empty H hI hel, hlo⟩, ?_, ?_⟩
               · rw [ht, elems_nil_of_items hc h.1.toInv hi0]
                 show List.Perm new.elems []
                 rw [hel]
@@ -1132,11 +1203,7 @@ theorem shrinkTo_refines (hc : CfgOk cfg) (hgrow : GrowthLawful cfg) {env : Env}
             | error e =>
               rw [hr] at hsp
               exact absurd hsp.1 (by decide)
-          | panic c w' =>
-            rw [hr] at hsp
-            obtain ⟨h1, h2, _⟩ := hsp
-            subst h1 h2
-            exact .inr rfl
+          | panic c w' => exact absurd hr (rf_fwc_no_panic halloc hcb hlaymb _ _ _ _)
           | abort =>
             rw [hr] at hsp
             have := hsp.2.1
@@ -1154,7 +1221,7 @@ theorem shrinkTo_refines (hc : CfgOk cfg) (hgrow : GrowthLawful cfg) {env : Env}
               cases u
               rw [hr] at hsp
               obtain ⟨_, hlo, _, _, _, _, hperm, _, hlog, _⟩ := hsp
-              refine .inl ⟨w', rfl, ⟨hgrow.resize env H hl _ _ w w' h.1 h.2 hcap0 hr, hlo⟩, hperm, ?_⟩
+              refine ⟨w', rfl, ⟨hgrow.resize env H hl _ _ w w' h.1 h.2 hcap0 hr, hlo⟩, hperm, ?_⟩
               rw [hlog]
               apply rf_dropsOf_resize_log
               · intro ev hev
@@ -1171,16 +1238,14 @@ theorem shrinkTo_refines (hc : CfgOk cfg) (hgrow : GrowthLawful cfg) {env : Env}
               rw [hr] at hsp
               exact absurd hsp.1 (by decide)
           | panic c w' =>
-            obtain ⟨h1, h2, _⟩ := rf_resizeInner_panic hc hl hr
-            subst h1 h2
-            exact .inr rfl
+            exact absurd (rf_resizeInner_panic_src hl hr) (rf_fwc_no_panic halloc hcb hlaymb _ _ _ _)
           | abort =>
             rw [hr] at hsp
             have := hsp.2
             rw [halloc] at this; cases this
           | fault f => rw [hr] at hsp; exact hsp.elim
       · rw [if_neg hlt]
-        exact .inl ⟨w, rfl, h, List.Perm.refl _, rfl⟩
+        exact ⟨w, rfl, h, List.Perm.refl _, rfl⟩
 
 /-! ## 9. `retain`: erasing behind the iterator -/
 
@@ -1311,6 +1376,17 @@ theorem rf_filterMap_slots_congr {a b : Array (Option Elem)} {idx : Nat} {v : Op
   rw [hb, Array.getElem?_setIfInBounds_ne]
   intro hij; subst hij; exact hni hj
 
+/-- The elements `retain` removes, as they are when dropped (payload already updated), in order. -/
+def AL.removed (P : AL.Pred) (l : AL) : AL :=
+  l.filterMap fun x => if (P x).1 then none else some { x with v := (P x).2 }
+
+theorem rf_removed_cons (P : AL.Pred) (e : Elem) (l : AL) :
+    AL.removed P (e :: l) =
+      if (P e).1 then AL.removed P l else { e with v := (P e).2 } :: AL.removed P l := by
+  unfold AL.removed
+  rw [List.filterMap_cons]
+  split <;> simp_all
+
 theorem rf_retain_cons (P : AL.Pred) (e : Elem) (l : AL) :
     AL.retain P (e :: l) =
       if (P e).1 then { e with v := (P e).2 } :: AL.retain P l else AL.retain P l := by
@@ -1326,7 +1402,9 @@ theorem rf_retainLoop_spec (hc : CfgOk cfg) {env : Env} {H : Nat → Nat} {P : A
       rest.length < fuel → RI cfg H w.t → IterOk cfg w.t it → it.rem w.t = rest →
       List.Perm w.t.elems (pre ++ rest.filterMap fun i => w.t.slots[i]?.join) →
       ∃ w', Map.retainLoop cfg env fuel it w = .ok w' ∧ RI cfg H w'.t ∧
-        List.Perm w'.t.elems (pre ++ AL.retain P (rest.filterMap fun i => w.t.slots[i]?.join)) := by
+        List.Perm w'.t.elems (pre ++ AL.retain P (rest.filterMap fun i => w.t.slots[i]?.join)) ∧
+        w'.log = dropEvs cfg (AL.removed P (rest.filterMap fun i => w.t.slots[i]?.join)).reverse ++
+          w.log := by
   intro rest
   induction rest with
   | nil =>
@@ -1334,7 +1412,7 @@ theorem rf_retainLoop_spec (hc : CfgOk cfg) {env : Env} {H : Nat → Nat} {P : A
     obtain ⟨f, rfl⟩ : ∃ f, fuel = f + 1 := ⟨fuel - 1, by simp at hf; omega⟩
     obtain ⟨it', hnext, _, _⟩ := rawIter_next_spec hc hRI.1.toInv it hok
     rw [hrem] at hnext
-    refine ⟨w, ?_, hRI, hperm⟩
+    refine ⟨w, ?_, hRI, hperm, by simp [AL.removed, dropEvs_nil]⟩
     rw [Map.retainLoop]
     simp only [hnext, List.head?_nil]
   | cons idx rest ih =>
@@ -1384,22 +1462,25 @@ theorem rf_retainLoop_spec (hc : CfgOk cfg) {env : Env} {H : Nat → Nat} {P : A
     rw [hstep]
     rw [List.filterMap_cons, hej]
     simp only
-    rw [rf_retain_cons]
+    rw [rf_retain_cons, rf_removed_cons]
     by_cases hkeep : (P e).1 = true
-    · rw [if_pos hkeep, if_pos hkeep]
-      obtain ⟨w', hrun, hRI', hp'⟩ := ih f it' { w with pc := w.pc + 1, t := { w.t with slots := w.t.slots.setIfInBounds idx (some { e with v := (P e).2 }) } }
+    · rw [if_pos hkeep, if_pos hkeep, if_pos hkeep]
+      obtain ⟨w', hrun, hRI', hp', hlog'⟩ := ih f it' { w with pc := w.pc + 1, t := { w.t with slots := w.t.slots.setIfInBounds idx (some { e with v := (P e).2 }) } }
         (pre ++ [{ e with v := (P e).2 }]) hf' hRI1 hok1 hrem1 (by
           show List.Perm (Raw.elems { w.t with slots := _ }) _
           refine hp2.trans ?_
           show List.Perm _ (_ ++ rest.filterMap fun i => (w.t.slots.setIfInBounds idx _)[i]?.join)
           rw [hfm1, List.append_assoc]
           exact ((hl0.cons _).trans List.perm_middle.symm))
-      refine ⟨w', hrun, hRI', ?_⟩
-      refine hp'.trans ?_
-      show List.Perm (_ ++ AL.retain P (rest.filterMap fun i => (w.t.slots.setIfInBounds idx _)[i]?.join)) _
-      rw [hfm1, List.append_assoc]
-      exact List.Perm.refl _
-    · rw [if_neg hkeep, if_neg hkeep]
+      refine ⟨w', hrun, hRI', ?_, ?_⟩
+      · refine hp'.trans ?_
+        show List.Perm (_ ++ AL.retain P (rest.filterMap fun i => (w.t.slots.setIfInBounds idx _)[i]?.join)) _
+        rw [hfm1, List.append_assoc]
+        exact List.Perm.refl _
+      · rw [hlog']
+        show dropEvs cfg (AL.removed P (rest.filterMap fun i => (w.t.slots.setIfInBounds idx _)[i]?.join)).reverse ++ w.log = _
+        rw [hfm1]
+    · rw [if_neg hkeep, if_neg hkeep, if_neg hkeep]
       have he1 : (w.t.slots.setIfInBounds idx (some { e with v := (P e).2 }))[idx]?.join =
           some { e with v := (P e).2 } := by
         rw [Array.getElem?_setIfInBounds_self_of_lt (slot_some_lt hej)]; rfl
@@ -1409,13 +1490,13 @@ theorem rf_retainLoop_spec (hc : CfgOk cfg) {env : Env} {H : Nat → Nat} {P : A
         (by exact (rf_iterOk_congr_ctrl hok (t' := { w.t with slots := w.t.slots.setIfInBounds idx (some { e with v := (P e).2 }) }) rfl rfl).1)
         (by rw [(rf_iterOk_congr_ctrl hok (t' := { w.t with slots := w.t.slots.setIfInBounds idx (some { e with v := (P e).2 }) }) rfl rfl).2]; exact hrem)
         hok1 hrem1 hr
-      obtain ⟨w2, hde, ht2, _⟩ := rf_dropElem_ok (cfg := cfg) hlp.nodropPanic { e with v := (P e).2 }
+      obtain ⟨w2, hde, ht2, hlog2⟩ := rf_dropElem_ok (cfg := cfg) hlp.nodropPanic { e with v := (P e).2 }
         ({ w with pc := w.pc + 1, t := t2 } : World)
       have hfm2 : (rest.filterMap fun i => t2.slots[i]?.join) =
           rest.filterMap fun i => w.t.slots[i]?.join := by
         rw [rf_filterMap_slots_congr hsl2 hnotin]
         exact hfm1
-      obtain ⟨w', hrun, hRI', hp'⟩ := ih f it' w2 pre hf' (by rw [ht2]; exact hRI2)
+      obtain ⟨w', hrun, hRI', hp', hlog'⟩ := ih f it' w2 pre hf' (by rw [ht2]; exact hRI2)
         (by rw [ht2]; exact hok2) (by rw [ht2]; exact hrem2) (by
           rw [ht2]
           show List.Perm t2.elems (_ ++ rest.filterMap fun i => t2.slots[i]?.join)
@@ -1423,27 +1504,33 @@ theorem rf_retainLoop_spec (hc : CfgOk cfg) {env : Env} {H : Nat → Nat} {P : A
           have h1 : List.Perm ({ e with v := (P e).2 } :: t2.elems) ({ e with v := (P e).2 } :: l0) :=
             hpt.trans hp2
           exact h1.cons_inv.trans hl0)
-      refine ⟨w', ?_, hRI', ?_⟩
+      refine ⟨w', ?_, hRI', ?_, ?_⟩
       · simp only [hr, hde, Bool.false_eq_true, if_false]
         exact hrun
       · refine hp'.trans ?_
         rw [ht2]
         show List.Perm (_ ++ AL.retain P (rest.filterMap fun i => t2.slots[i]?.join)) _
         rw [hfm2]
+      · rw [hlog', hlog2, ht2]
+        show dropEvs cfg (AL.removed P (rest.filterMap fun i => t2.slots[i]?.join)).reverse ++
+          (dropEvs cfg [_] ++ w.log) = _
+        rw [hfm2, List.reverse_cons, dropEvs_append, List.append_assoc]
 
 /-- **`retain`**: the predicate is called once per element, in bucket order; elements answered
-    `false` are removed (and dropped), the others keep their key object and get the new payload. -/
+    `false` are removed and dropped (exactly once each, in bucket order, nothing else is dropped),
+    the others keep their key object and get the new payload. -/
 theorem retain_refines (hc : CfgOk cfg) {env : Env} {H : Nat → Nat} {P : AL.Pred}
     (hlp : LawfulP env H P) (w : World) (h : RI cfg H w.t) :
     ∃ w', Map.retain cfg env w = .ok w' ∧ RI cfg H w'.t ∧
-      List.Perm w'.t.elems (AL.retain P w.t.elems) := by
+      List.Perm w'.t.elems (AL.retain P w.t.elems) ∧
+      w'.log = dropEvs cfg (AL.removed P w.t.elems).reverse ++ w.log := by
   obtain ⟨it, hnew, hok, hrem⟩ := rawIter_new_spec hc h.1.toInv
   have hlen := fullList_length_le w.t
-  obtain ⟨w', hrun, hRI', hp⟩ := rf_retainLoop_spec hc hlp w.t.fullList (w.t.buckets + 2) it w []
+  obtain ⟨w', hrun, hRI', hp, hlog⟩ := rf_retainLoop_spec hc hlp w.t.fullList (w.t.buckets + 2) it w []
     (by omega) h hok hrem (by rw [List.nil_append, ← elems_eq_fullList h.1.toInv])
-  refine ⟨w', by simp only [Map.retain, hnew]; exact hrun, hRI', ?_⟩
   rw [List.nil_append, ← elems_eq_fullList h.1.toInv] at hp
-  exact hp
+  rw [← elems_eq_fullList h.1.toInv] at hlog
+  exact ⟨w', by simp only [Map.retain, hnew]; exact hrun, hRI', hp, hlog⟩
 
 /-- **`HashMap::reserve`.** -/
 theorem reserve_refines (hc : CfgOk cfg) (hgrow : GrowthLawful cfg) {env : Env} {H : Nat → Nat}
@@ -1479,7 +1566,6 @@ def MapOp.basic : MapOp → Bool
 def MapOp.mayOverflow : MapOp → Bool
   | .insert _ => true
   | .reserve _ => true
-  | .shrinkTo _ => true
   | _ => false
 
 /-- **One call refines one specification step** (up to bucket order), or is a capacity-overflow
@@ -1534,11 +1620,10 @@ theorem step_refines (hc : CfgOk cfg) (hgrow : GrowthLawful cfg) {env : Env} {H 
     · exact .inl ⟨_, w, _, by simp only [Map.step, Map.tryReserve, hr, rf_bind_ok, rf_pure],
         .tryReserve n (some .capacityOverflow) _, List.Perm.refl _, h⟩
   | shrinkTo m =>
-    rcases shrinkTo_refines hc hgrow hl hlp.alloc m w h with ⟨w', hr, hRI, hp, _⟩ | hr
-    · exact .inl ⟨_, w', _, by simp only [Map.step, hr], .shrinkTo m _, hp, hRI⟩
-    · exact .inr ⟨w, by simp only [Map.step, hr], rfl, rfl⟩
+    obtain ⟨w', hr, hRI, hp, _⟩ := shrinkTo_refines hc hgrow hl hlp.alloc m w h
+    exact .inl ⟨_, w', _, by simp only [Map.step, hr], .shrinkTo m _, hp, hRI⟩
   | retain =>
-    obtain ⟨w', hr, hRI, hp⟩ := retain_refines hc hlp w h
+    obtain ⟨w', hr, hRI, hp, _⟩ := retain_refines hc hlp w h
     exact .inl ⟨_, w', _, by simp only [Map.step, hr], .retain _, hp, hRI⟩
   | extractIf n => cases hop
   | drain n f => cases hop
